@@ -332,6 +332,17 @@ func (c *Ctx) c03Sibling(fo *FO) {
 						}
 					}
 				}
+				// identity with the bare sentinel (`err == ErrNotFound`): the same answer errors.As/Is would give for it
+				for _, cv := range fo.E.Vals {
+					if !isConstNamed(cv, "ErrNotFound") {
+						continue
+					}
+					for _, k := range []*pw.Val{cv, cv.Canon} {
+						if k != nil && p.Rel(rerr, k) == pw.REq {
+							as, is = triFalse, triTrue
+						}
+					}
+				}
 				switch {
 				case as == triTrue:
 					entries = fo.staleClasses(p, rerr, zero)
